@@ -353,10 +353,11 @@ def run_check(mod, tier="quick", seed=0, replay=None):
         cases.append(case)
         results.append(r)
     if harness_errors:
-        log(f"[{pid}] harness errors: {len(harness_errors)}; first:\n{harness_errors[0][1][-1500:]}")
+        # The harness reads the implementation's objects directly; when it can no longer do so the
+        # tie between model and code is broken for those cases (not an infrastructure verdict):
+        # they are reported like disagreements and the failing-input search runs.
+        log(f"[{pid}] harness could not observe the implementation in {len(harness_errors)} case(s); first:\n{harness_errors[0][1][-1200:]}")
         log(json.dumps(harness_errors[0][0], default=str)[:600])
-        return 2
-
     diffs = []
     model_lines = 0
     corr_ok = False
@@ -376,22 +377,29 @@ def run_check(mod, tier="quick", seed=0, replay=None):
         for sig, msg in r.violations:
             violations.append((sig, msg, case))
 
+    if harness_errors:
+        corr_ok = False
+        corr_err = (corr_err + " " if corr_err else "") + f"harness could not observe the implementation in {len(harness_errors)} case(s): " + harness_errors[0][1].strip().splitlines()[-1][:200]
     tie_broken = (not pr["ok"]) or (not corr_ok)
     searched = 0
-    if tie_broken and not violations and hasattr(mod, "search"):
-        # failing-input search on the real code with the property's oracle (DESIGN §5.3)
+    known = load_known()
+    known_sigs = {f["signature"]: f for f in known.get("findings", []) if f.get("property") == pid}
+    if tie_broken and not any(s not in known_sigs for s, _, _ in violations) and hasattr(mod, "search"):
+        # failing-input search on the real code with the property's oracle (DESIGN §5.3); listed
+        # known findings do not end it
         budget = 60 if tier == "quick" else 600
         log(f"[{pid}] proof/correspondence broken: searching the real code for a failing input ({budget}s)…")
         seeds = [cases[d["case"]] for d in diffs[:20]]
+        found = False
         for case, r in mod.search(rng, budget, seeds):
             searched += 1
             for sig, msg in r.violations:
                 violations.append((sig, msg, case))
-            if violations:
+                if sig not in known_sigs:
+                    found = True
+            if found:
                 break
 
-    known = load_known()
-    known_sigs = {f["signature"]: f for f in known.get("findings", []) if f.get("property") == pid}
     new_viol = [(s, m, c) for (s, m, c) in violations if s not in known_sigs]
     old_viol = [(s, m, c) for (s, m, c) in violations if s in known_sigs]
 
